@@ -717,9 +717,26 @@ fn fixture_cases(tier: Tier) -> Vec<Case> {
     let mut cases = Vec::new();
     let root = fixtures_root();
     let mut stats = Stats::default();
+    // (path, bytes, patch lines): every fixture as it is; thin Mach-O files that have both LC_FUNCTION_STARTS and
+    // `__unwind_info` once more with the function-starts data emptied (`datasize` = 0), so that the compact-unwind
+    // pages are the only source of function starts (on the files as they are, every unwind-info start is also a
+    // function start and the second source is unobservable)
+    let mut variants: Vec<(String, Arc<[u8]>, Vec<String>)> = Vec::new();
     for path in fixture_files() {
         let Ok(bytes) = std::fs::read(root.join(&path)) else { continue };
-        let bytes: Arc<[u8]> = bytes.into();
+        if let Some(pos) = objpres::macho_function_starts_cmd(&bytes) {
+            let patch = vec![format!("fpatch {} 00000000", pos + 12)];
+            let patched = objpres::apply_patches(&bytes, &patch);
+            let has_unwind = objpres::presentation(&patched, "macho").map(|p| p.iter().any(|l| l.starts_with("funwind "))).unwrap_or(false);
+            variants.push((path.clone(), bytes.into(), Vec::new()));
+            if has_unwind {
+                variants.push((path, patched.into(), patch));
+            }
+        } else {
+            variants.push((path, bytes.into(), Vec::new()));
+        }
+    }
+    for (path, bytes, patch) in variants {
         let Ok(Ok(map)) = catch_unwind(AssertUnwindSafe(|| load_map(bytes.clone(), &path))) else { continue };
         let tag = fixture_tag(&path, &bytes);
         let layout = if tag == "pdb" { None } else { object_layout(&bytes) };
@@ -853,7 +870,8 @@ fn fixture_cases(tier: Tier) -> Vec<Case> {
                         }
                     }
                 }
-                let mut desc: Vec<String> = pres.clone();
+                let mut desc: Vec<String> = patch.clone();
+                desc.extend(pres.iter().cloned());
                 desc.extend(dem);
                 let mut ops = vec![format!("kind fxobj {tag} {path}")];
                 if threads > 0 {
@@ -864,11 +882,15 @@ fn fixture_cases(tier: Tier) -> Vec<Case> {
                 for q in chunk {
                     ops.push(format!("q {} {} {}", q.form.tag(), q.addr, q.claim));
                 }
-                cases.push(Case { name: format!("fo-{}-{k}", path.replace(['/', ' '], "_")), ops });
+                let variant = if patch.is_empty() { "" } else { "-nofs" };
+                cases.push(Case { name: format!("fo-{}{variant}-{k}", path.replace(['/', ' '], "_")), ops });
             }
             if tier != Tier::Thorough {
                 continue;
             }
+        }
+        if !patch.is_empty() {
+            continue; // the judge-only sweep reads the file as it is
         }
         // split into cases of at most 600 queries, recording the answers of this (generation-time) run
         for (k, chunk) in queries.chunks(600).enumerate() {
@@ -1515,7 +1537,10 @@ impl Prop for C05 {
                 }
                 stats.bump(&format!("fxobj_{tag}"));
                 let Ok(bytes) = std::fs::read(fixtures_root().join(&path)) else { return vec!["err:read".to_string()] };
-                let bytes: Arc<[u8]> = bytes.into();
+                if ops.iter().any(|l| l.starts_with("fpatch ")) {
+                    stats.bump("fxobj_derived(function_starts_emptied)");
+                }
+                let bytes: Arc<[u8]> = objpres::apply_patches(&bytes, ops).into();
                 let queries: Vec<Query> = ops.iter().filter_map(|l| parse_query(l)).collect();
                 let threads = ops.iter().find_map(|l| l.strip_prefix("threads ")).and_then(|s| s.trim().parse().ok()).unwrap_or(0);
                 let reload = || load_map(bytes.clone(), &path).ok();
